@@ -424,6 +424,23 @@ pub fn run(run: &Run) {
     for n in 13..=14usize {
         al::<volute::Lut>(run, false, n);
     }
+    fn em<L: Tab>(run: &Run, st: bool, n: usize) {
+        let fam = alpha::embedded3(n, run.thorough() && n <= 8);
+        run.section(&format!("EMBEDDED n={} {}: every 3-variable function at ordered variable triples x all v", n, L::tname(n)), false, &format!("{} tables g(x_a,x_b,x_c)", fam.len()), fam.len() as u64, 8, |r, l| {
+            for k in r {
+                let t = &fam[k as usize];
+                l.states += 1;
+                for v in 0..n {
+                    step::<L>(l, st, t, v);
+                }
+            }
+        });
+    }
+    for n in 7..=10usize {
+        for st in [false, true] {
+            for_type!(st, n, em(run, st, n));
+        }
+    }
     histories(run);
     let _ = for_static!(0, nop());
 }
